@@ -60,6 +60,7 @@ package dig
 //@ scan[C03:no-direct-decorator-calls] calls (*dig.decoratorNode).Call <= none
 //@ scan[C17:invoker-write-sites] stores Scope.invokerFn <= (*dig.Scope).Scope, (dig.dryRunOption).applyOption, dig.newScope
 //@ scan[C17:invoker-read-sites] loads Scope.invokerFn <= (*dig.Scope).Invoke, (*dig.Scope).Scope, (*dig.Scope).invoker
+//@ scan[C17:values-are-looked-at-only-here,C01:values-are-looked-at-only-here] methodcalls reflect.Value <= (*dig.Scope).Invoke:Interface, (*dig.Scope).Invoke:Type, (dig.paramObject).Build:Elem, (dig.paramObject).Build:Field, (dig.paramObject).Build:Set, (dig.resultGrouped).Extract:Index, (dig.resultGrouped).Extract:Len, (dig.resultList).ExtractList:Interface, (dig.resultObject).Extract:Field, dig.defaultInvoker:Call, dig.dryInvoker:Type, dig.newConstructorNode:Pointer, dig.newConstructorNode:Type, dig.newDecoratorNode:Pointer, dig.newDecoratorNode:Type, digreflect.InspectFunc:Pointer
 //@ scan[C13:recover-sites] builtin recover <= (*dig.Scope).Invoke$1, (*dig.constructorNode).Call$2, (*dig.decoratorNode).Call$3
 //@ scan[C13:cycle-error-construction-sites,C05:cycle-error-construction-sites] allocs dig.errCycleDetected <= (*dig.Scope).cycleDetectedError, (dig.errCycleDetected).Error, dig.IsCycleDetected
 //@ scan[C13:panic-error-construction-sites] allocs dig.PanicError <= (*dig.Scope).Invoke$1, (*dig.constructorNode).Call$2, (*dig.decoratorNode).Call$3, (dig.PanicError).Format
@@ -1331,3 +1332,33 @@ package dig
 //@   ensures[C09:validated-keys-are-a-fresh-set] err == nil ==> keys != nil && fresh(keys)
 //@   ensures[C09:validation-reports-what-the-walk-found] (err != nil) == (deref(as(argOf(walkResult_1, 1), connectionVisitor).err) != nil)
 //@   site call dig.walkResult #1: assert[C09:whole-result-list-validated-against-this-scope,C08:whole-result-list-validated-against-this-scope] $arg0 == box(rl) && is($arg1, connectionVisitor) && as($arg1, connectionVisitor).s == s
+
+// ---------------------------------------------------------------------------
+// Invoke (C01, C03, C04, C05, C13, C14, C17)
+
+//@ func (s *Scope) Invoke(function, opts) (err)
+//@   requires s != nil && treeInv()
+//@   requires forall i int :: 0 <= i && i < len(opts) ==> opts[i] != nil
+//@   modifies @knot, Scope.isVerifiedAcyclic, graphHolder.nodes, elems(*graphNode), map(constructorNode.orders), InvokeInfo.Inputs, invokeOptions.Info
+//@   allocates
+//@   maypanic
+//@   let results = ret(invokerFn_1, 0)
+//@   let last = results[len(results) - 1]
+//@   ensures[C14:invoking-something-that-is-no-function-is-an-error] (function == nil || kind(typeOf(function)) != kFunc()) ==> err != nil && is(err, errInvalidInput) && unchangedAll() && $nrun == old($nrun)
+//@   ensures[C04:missing-direct-dependencies-run-nothing] reached(shallowCheckDependencies_1) && ret(shallowCheckDependencies_1, 0) != nil ==> is(err, errMissingDependencies)
+//@        && as(err, errMissingDependencies).Reason == ret(shallowCheckDependencies_1, 0) && $nrun == old($nrun) && $ncb == old($ncb)
+//@   ensures[C05:graph-verified-before-anything-is-built,C16:graph-verified-before-anything-is-built] reached(BuildList_1) ==> at(BuildList_1, s.isVerifiedAcyclic)
+//@   ensures[C05:cycle-found-at-invoke-runs-nothing,C13:cycle-found-at-invoke-runs-nothing] reached(cycleDetectedError_1) ==> err != nil && chainHasCycle(err) && $nrun == old($nrun) && $ncb == old($ncb) && !reached(BuildList_1)
+//@   ensures[C13:argument-errors-are-wrapped-once] reached(BuildList_1) && ret(BuildList_1, 1) != nil ==> is(err, errArgumentsFailed) && as(err, errArgumentsFailed).Reason == ret(BuildList_1, 1)
+//@        && $nrun == at(BuildList_1, $nrun)
+//@   ensures[C03:function-runs-after-its-arguments-once,C01:function-runs-after-its-arguments-once] reached(invokerFn_1) && s.invokerFn == defaultInvoker ==> $nrun == at(BuildList_1, $nrun) + 1
+//@        && $runFn[at(BuildList_1, $nrun)] == valueOf(function) && $runArgs[at(BuildList_1, $nrun)] == ret(BuildList_1, 0)
+//@   ensures[C17:dry-invoke-runs-nothing-itself] reached(invokerFn_1) && s.invokerFn == dryInvoker ==> $nrun == at(BuildList_1, $nrun)
+//@   ensures[C13:the-functions-error-is-returned-as-is] reached(invokerFn_1) && !recovered() && len(results) > 0 && implements(typ(last), _errType) && isA(rvIface(last), error) ==> err == rvIface(last)
+//@   ensures[C13:no-error-from-the-function-means-success] reached(invokerFn_1) && !recovered() && (len(results) == 0 || !implements(typ(last), _errType) || !isA(rvIface(last), error)) ==> err == nil
+//@   ensures[C13:panic-to-PanicError] recovered() ==> s.recoverFromPanics && is(err, PanicError) && as(err, PanicError).Panic == $recovered
+//@   onpanic[C13:panic-propagates-unchanged] reached(invokerFn_1_panic) ==> $panic == ret(invokerFn_1_panic, 0) && !s.recoverFromPanics
+//@   site call (dig.paramList).BuildList #1: assert[C08:arguments-built-in-the-invoking-scope,C01:arguments-built-in-the-invoking-scope] isScope($arg0) && scopeOf($arg0) == s && $recv == ret(newParamList_1, 0)
+//@   site call dig.shallowCheckDependencies #1: assert[C04:direct-dependencies-checked-in-the-invoking-scope,C08:direct-dependencies-checked-in-the-invoking-scope] isScope($arg0) && scopeOf($arg0) == s && $arg1 == ret(newParamList_1, 0)
+//@   site call dig.newParamList #1: assert[C15:parameters-parsed-from-the-functions-type] $arg0 == typeOf(function) && isScope($arg1) && scopeOf($arg1) == s
+//@   site call graph.IsAcyclic #1: assert[C05:the-invoking-scopes-graph-is-checked] is($arg0, ptr(graphHolder)) && as($arg0, ptr(graphHolder)) == s.gh
